@@ -20,6 +20,12 @@ static void sec(std::ostream& os, const char* name, const double* v, size_t n) {
   for (size_t i = 0; i < n; ++i) { std::snprintf(b, sizeof b, " %.17g", v[i]); os << b; }
   os << " | ";
 }
+// logical (row-major) element order: rows of a Matrix may be padded for alignment
+static void secm(std::ostream& os, const char* name, const Matrix& A) {
+  std::vector<double> v;
+  for (int i = 0; i < A.dimension(0); ++i) for (int j = 0; j < A.dimension(1); ++j) v.push_back(A(i, j));
+  sec(os, name, v.empty() ? 0 : &v[0], v.size());
+}
 static void sec(std::ostream& os, const char* name, const std::vector<double>& v) { sec(os, name, v.empty() ? 0 : &v[0], v.size()); }
 struct Seg { int start, count, step; };
 static void declare(Stack& st, aVector& x, const std::vector<Seg>& segs, bool indep, std::vector<int>& flat) {
@@ -88,17 +94,17 @@ int main(int argc, char** argv) {
       buf.assign(m * n, SENT); stack.jacobian_forward(&buf[0], 0, 1); sec(os, "QF", buf);
       buf.assign(m * n, SENT); stack.jacobian_reverse(&buf[0], 0, 1); sec(os, "QR", buf);
       { Matrix A(m, n);
-        A = SENT; stack.jacobian_forward(A); sec(os, "MF", A.data(), m * n);
-        A = SENT; stack.jacobian_reverse(A); sec(os, "MR", A.data(), m * n);
-        A = SENT; stack.jacobian(A); sec(os, "MA", A.data(), m * n); }
+        A = SENT; stack.jacobian_forward(A); secm(os, "MF", A);
+        A = SENT; stack.jacobian_reverse(A); secm(os, "MR", A);
+        A = SENT; stack.jacobian(A); secm(os, "MA", A); }
       { Matrix B(n, m);
-        B = SENT; stack.jacobian_forward(B.T()); sec(os, "TF", B.data(), m * n);
-        B = SENT; stack.jacobian_reverse(B.T()); sec(os, "TR", B.data(), m * n);
-        B = SENT; stack.jacobian(B.T()); sec(os, "TA", B.data(), m * n); }
+        B = SENT; stack.jacobian_forward(B.T()); secm(os, "TF", B);
+        B = SENT; stack.jacobian_reverse(B.T()); secm(os, "TR", B);
+        B = SENT; stack.jacobian(B.T()); secm(os, "TA", B); }
       { Matrix big(2 * m + 1, 3 * n + 2);
-        big = SENT; stack.jacobian_forward(big(stride(1, 2 * m - 1, 2), stride(2, 3 * n - 1, 3))); sec(os, "SF", big.data(), big.size());
-        big = SENT; stack.jacobian_reverse(big(stride(1, 2 * m - 1, 2), stride(2, 3 * n - 1, 3))); sec(os, "SR", big.data(), big.size());
-        big = SENT; stack.jacobian(big(stride(1, 2 * m - 1, 2), stride(2, 3 * n - 1, 3))); sec(os, "SA", big.data(), big.size()); }
+        big = SENT; stack.jacobian_forward(big(stride(1, 2 * m - 1, 2), stride(2, 3 * n - 1, 3))); secm(os, "SF", big);
+        big = SENT; stack.jacobian_reverse(big(stride(1, 2 * m - 1, 2), stride(2, 3 * n - 1, 3))); secm(os, "SR", big);
+        big = SENT; stack.jacobian(big(stride(1, 2 * m - 1, 2), stride(2, 3 * n - 1, 3))); secm(os, "SA", big); }
       // the OpenMP sections of the model: same calls (parallel when built with -fopenmp and n or m > block width)
       buf.assign(m * n, SENT); stack.jacobian_forward(&buf[0]); sec(os, "OF", buf); sec(os, "OFr", buf);
       buf.assign(m * n, SENT); stack.jacobian_reverse(&buf[0]); sec(os, "OR", buf); sec(os, "ORr", buf);
